@@ -167,6 +167,23 @@ func byteMutants(enc []byte) [][]byte {
 				sub(h.Off, h.Len, []byte{0xf8, h.AI})
 			}
 		}
+		if (h.Major == 2 || h.Major == 3) && h.AI != 31 && h.Off+h.Len+int(h.Arg) <= len(enc) && h.Arg < 1<<20 {
+			// edits of a string's content that keep the item well-formed (the length in the head follows,
+			// shortest form): first / last byte dropped, a zero byte or 0x01 put in front, a zero byte
+			// appended — under tag 42 this is the CID without its prefix, with two, with another prefix
+			start, n := h.Off+h.Len, int(h.Arg)
+			content := enc[start : start+n]
+			rebuild := func(c []byte) {
+				sub(h.Off, h.Len+n, append(ref.CborMinimalHead(h.Major, uint64(len(c))), c...))
+			}
+			if n >= 1 {
+				rebuild(content[1:])
+				rebuild(content[:n-1])
+			}
+			rebuild(append([]byte{0x00}, content...))
+			rebuild(append([]byte{0x01}, content...))
+			rebuild(append(append([]byte(nil), content...), 0x00))
+		}
 		for _, t := range tagHeads {
 			sub(h.Off, 0, t)
 		}
